@@ -57,6 +57,26 @@ CHECKS = {
         ref="3 C08", technique="Lean 4 proof (output validity invariant of the change computation) + model/implementation correspondence",
         note=TB + "an output into which merge_change adds the change is a caller-requested output and is judged for sign "
                   "only; the value-size bound of packed bundles is evaluated on the implementation, not proved."),
+    "C09": dict(
+        text="Lean theorems over the model of build()'s input gathering and selection (exclusion conflict check, seen-set / "
+             "exclusion filter over potential inputs and address UTxOs, selector fallback chain, canonical sort) with the "
+             "selectors universally quantified under what C14 proves of them: the pool is exactly the permitted UTxOs each "
+             "once; inputs are a subset of explicit / potential / address UTxOs; explicit inputs kept; excluded unused; "
+             "conflicts refused; no duplicates; ledger order. Tied to /repo through recording selectors (public "
+             "utxo_selectors API) that expose the pool and the fallback order, and judged on the decoded body bytes.",
+        ref="3 C09", technique="Lean 4 proof (subset / nodup / sortedness invariants of the selection flow) + model/implementation correspondence",
+        note=TB + "that the caller's UTxO objects and lists are left unmodified is shown by snapshots in the differential "
+                  "run only (the model is pure)."),
+    "C14": dict(
+        text="Lean theorems over statement-by-statement models of LargestFirstSelector and RandomImproveMultiAsset for "
+             "every pool, request, limit, flag combination and index stream: selection is a duplicate-free sub-list of the "
+             "pool, covers the request (+ max fee) in ADA and every asset, change = selected - request, termination, "
+             "largest-first insufficiency is genuine; the input-limit statement is proved on its true region with "
+             "machine-checked counterexamples outside. Tied to /repo by differential runs (exhaustive small pools, all "
+             "index streams to depth 6, random pools).",
+        ref="3 C14", technique="Lean 4 proof (post-conditions of both selectors for all pools and random streams) + model/implementation correspondence",
+        note=TB + "pool immutability holds by construction in the pure model and is checked by snapshots on the "
+                  "implementation; recorded defects KF-C14-limit and KF-C14-index."),
     "C15": dict(
         text="Lean theorems over byte-level models of Address / PointerAddress / bech32: varnat and pointer round trips "
              "and minimality, header = kind<<4|network, byte round trip and injectivity for all 10 kinds, convertbits and "
@@ -74,6 +94,16 @@ CHECKS = {
         ref="3 C16", technique="Lean 4 proof (refinement of the integer-level spec, abstract group) + model/implementation correspondence",
         note=TB + "SHA-512 / HMAC / PBKDF2 / edwards25519 are modelled as structure fields with explicit law hypotheses, "
                   "not verified; validated against hashlib / libsodium / the reference."),
+    "C17": dict(
+        text="Lean theorems over a model in which every identifier is (digest length, preimage bytes) with the hash abstract: "
+             "the identifier table equals the specification table for all kinds (tx id, datum, aux data, key, native / "
+             "Plutus V1-V3 script with prefix bytes, policy id, script address, CIP-14), preimages of different languages "
+             "/ bytes / items differ (from the CBOR round trip), the builder's script gate accepts iff the hash equals the "
+             "payment credential and picks the first matching candidate, the body's aux-data hash is over the very item "
+             "shipped. Tied to /repo by comparing the library's identifiers with hashlib over independently obtained bytes.",
+        ref="3 C17", technique="Lean 4 proof (identifier table = spec, preimage injectivity) + model/implementation correspondence",
+        note=TB + "BLAKE2b is abstract in the theorems (collision freedom is an explicit hypothesis where needed), "
+                  "validated hashlib vs nacl in the harness; the harness memoises typing.get_type_hints in-process for speed."),
     "C18": dict(
         text="Lean theorems over a model of plutus.py / default_encoder against a specification of the ledger's Plutus data "
              "encoding: constructor/tag bijection for all naturals, chunking spec, model = spec on all construction routes "
